@@ -152,4 +152,60 @@ def resDrop (m : M) : Res :=
 
 def outOf (m : M) (res : Res) : St × Out := (m.s, ⟨res, m.wokeR, m.wokeW⟩)
 
+/-! ### `coop/mod.rs`: the thread-local budget cell -/
+
+inductive BCond
+  | bZero          -- `b == 0`
+  | pollPending    -- `poll.is_pending()`
+  | getSome        -- `let Some(mut b) = budget.get()` (binds `b`)
+  deriving Repr, DecidableEq
+
+inductive BRet
+  | pending | ready | same     -- `same`: `track_progress` returns the poll it was given
+  deriving Repr, DecidableEq
+
+inductive BStmt
+  | skip
+  | seq (a b : BStmt)
+  | ite (c : BCond) (t e : BStmt)
+  | matchGet (some none : BStmt)   -- `match budget.get() { Some(mut b) => .., None => .. }`
+  | ret (r : BRet)
+  | subOne                         -- `b = b.saturating_sub(1)`
+  | addOne                         -- `b = b.saturating_add(1)` (usize)
+  | setNone                        -- `budget.set(None)`
+  | setB                           -- `budget.set(Some(b))`
+  | setDefault                     -- `budget.set(Some(DEFAULT_START_BUDGET.get()))`
+  | wakeSelf                       -- `context.waker().wake_by_ref()`
+  deriving Repr
+
+structure BM where
+  cell : Option Nat            -- `TASK_BUDGET`
+  b : Nat := 0
+  pollPending : Bool := false  -- the argument of `track_progress`
+  ret : Option BRet := none
+  wokeSelf : Bool := false
+  deriving Repr
+
+def execB : BStmt → BM → BM
+  | .skip, m => m
+  | .seq a b, m => let m' := execB a m; if m'.ret.isSome then m' else execB b m'
+  | .ite c t e, m =>
+      match c with
+      | .bZero => if m.b = 0 then execB t m else execB e m
+      | .pollPending => if m.pollPending then execB t m else execB e m
+      | .getSome => match m.cell with
+          | some v => execB t { m with b := v }
+          | none => execB e m
+  | .matchGet s n, m =>
+      match m.cell with
+      | some v => execB s { m with b := v }
+      | none => execB n m
+  | .ret r, m => { m with ret := some r }
+  | .subOne, m => { m with b := m.b - 1 }
+  | .addOne, m => { m with b := min (m.b + 1) usizeMax }
+  | .setNone, m => { m with cell := none }
+  | .setB, m => { m with cell := some m.b }
+  | .setDefault, m => { m with cell := some Generated.defaultStartBudget }
+  | .wakeSelf, m => { m with wokeSelf := true }
+
 end SwimVerif.ConduitProg
